@@ -15,7 +15,8 @@ Oracle (DESIGN §C18), over the recorded specs only; the model is the generator'
   * every generated command is found again in the submitted command (or in the code.sh the submitted
     command sources): the generator brackets every literal and every resource reference with unique
     sentinel literals; text between two sentinels must be byte-identical (literal) or a single
-    shell word `shlex.quote(path)` / `${BATCH_TMPDIR}` + `shlex.quote(path below BATCH_TMPDIR)` (reference);
+    shell word `shlex.quote(path)` / `${BATCH_TMPDIR}` + `shlex.quote(path below BATCH_TMPDIR)` (reference; any
+    other text that a conservative quote-removal evaluator reads as one literal word is accepted too);
   * the path a consumer B uses for a file of job A is the local side of an entry (remote, path) of
     B.input_files, the same remote is the remote side of an entry (local_A, remote) of A.output_files, and
     local_A is the path A's own command uses for that file; B.parents contains A;
@@ -32,7 +33,6 @@ import os
 import random
 import re
 import shlex
-import subprocess
 import warnings
 
 PID = 'C18'
@@ -52,11 +52,11 @@ RULE = (
 )
 ASSUMPTIONS = [
     'the recording fake client receives exactly what hailtop.batch_client.aioclient.Batch.create_job would receive',
-    'shlex.split (POSIX mode) is the word-splitting / quote-removal of the shell for single-quoted words; non-canonical quoting is decided by really asking bash',
+    'the 50-line quote-removal evaluator shell_literal_word is a sound under-approximation of "the shell reads this text as exactly one literal word"',
     'dill is replaced by a pickle-backed shim (vf/shims/pkgs/dill): argument files are readable, function bodies are pickled by reference',
     'rich.progress.track replaced by the identity iterator; validate_file / copy_from_dict / the remote fs are recording fakes (no network)',
 ]
-TRUSTED_BASE = ['shlex', 'bash (only for non-canonical quoting)', 'recording fakes for batch client / remote fs']
+TRUSTED_BASE = ['shlex.quote', 'shell_literal_word (quote removal)', 'recording fakes for batch client / remote fs', 'pickle-backed dill shim']
 SHARDS = {'quick': 1, 'thorough': 16}
 TIMEOUT = {'quick': 300, 'thorough': 900}
 
@@ -82,6 +82,7 @@ def FLOORS(tier):
         'parents_checked': 400 * k,
         'distinctness_paths_compared': 1500 * k,
         'token_space_cases': 20 * k,
+        'digit_probes_placed': 10 * k,
     }
 
 
@@ -523,6 +524,10 @@ def execute(case):
             warnings.simplefilter('ignore')
             b = hb.Batch(backend=be, name='c18')
             jobs, fobj, gobj = {}, {}, {}
+            last_probe_site = None
+            for op in case['ops']:
+                if op['op'] == 'command' and any('digit_probe' in s for s in case['jobs'][op['j']]['cmds'][op['c']]):
+                    last_probe_site = (op['j'], op['c'])
             try:
                 for op in case['ops']:
                     kind = op['op']
@@ -563,11 +568,15 @@ def execute(case):
                                 if s['rid'] not in fobj:
                                     fobj[s['rid']] = jobs[f['producer']][f['name']]
                                 ref = str(fobj[s['rid']])
-                                if 'digit_probe' in s:
-                                    hits = [d for d in '0123456789' if ref + d in b._resource_map and ref + d != ref]
+                                if 'digit_probe' in s and not obs['probes']:
+                                    # one probe per program.  Steering (workload only): prefer a digit that makes uid+digit the
+                                    # uid of another resource of this batch; the last candidate takes any digit
+                                    hits = [d for d in '0123456789' if ref + d in b._resource_map]
+                                    if not hits and (j, c) == last_probe_site:
+                                        hits = list('0123456789')
                                     if hits:
                                         s['suffix'] = hits[int(s['digit_probe'] * len(hits))] + '-probe'
-                                        obs['probes'].append({'j': j, 'c': c, 'k': k, 'ref': ref, 'suffix': s['suffix']})
+                                        obs['probes'].append({'j': j, 'c': c, 'k': k, 'ref': ref, 'suffix': s['suffix'], 'steered': (j, c) != last_probe_site})
                                 text.append(f'{fobj[s["rid"]]}{s["suffix"]}')
                             else:
                                 text.append(f'{gobj[s["gid"]]}{s["suffix"]}')
@@ -658,37 +667,82 @@ def execute(case):
 # ------------------------------------------------------------------------------------------
 
 
-def bash_words(text, env):
-    """ask the real shell what `text` expands to (list of words) -- only used for non-canonical quoting"""
-    try:
-        p = subprocess.run(['/bin/bash', '-c', "printf '%s\\0' " + text], env=dict(env, PATH='/usr/bin:/bin'), capture_output=True, timeout=10, cwd='/')
-    except Exception:
-        return None
-    if p.returncode != 0:
-        return None
-    parts = p.stdout.split(b'\0')
-    return [x.decode('utf-8', 'replace') for x in parts[:-1]]
+SAFE_UNQUOTED = set('abcdefghijklmnopqrstuvwxyzABCDEFGHIJKLMNOPQRSTUVWXYZ0123456789@%+=:,./-_')
+TMPVAR = '${BATCH_TMPDIR}'
+
+
+def shell_literal_word(text, tmpdir):
+    """The single word a POSIX shell reads `text` as, provided the shell does nothing but quote removal
+    (and the expansion of ${BATCH_TMPDIR}, whose value needs no quoting); otherwise (None, reason).
+    Deliberately conservative: any unquoted character outside shlex's safe set, any `$`/backquote other
+    than ${BATCH_TMPDIR} outside single quotes, is "not a quoted path"."""
+    out = []
+    i, n = 0, len(text)
+    if n == 0:
+        return None, 'is empty'
+    while i < n:
+        ch = text[i]
+        if text.startswith(TMPVAR, i) and tmpdir:
+            out.append(tmpdir)
+            i += len(TMPVAR)
+        elif ch == "'":
+            j = text.find("'", i + 1)
+            if j < 0:
+                return None, 'has an unterminated single quote'
+            out.append(text[i + 1:j])
+            i = j + 1
+        elif ch == '"':
+            i += 1
+            while True:
+                if i >= n:
+                    return None, 'has an unterminated double quote'
+                c = text[i]
+                if c == '"':
+                    i += 1
+                    break
+                if text.startswith(TMPVAR, i) and tmpdir:
+                    out.append(tmpdir)
+                    i += len(TMPVAR)
+                elif c in '$`':
+                    return None, f'contains an expansion ({c}) inside double quotes'
+                elif c == '\\':
+                    if i + 1 < n and text[i + 1] in '$`"\\':
+                        out.append(text[i + 1])
+                        i += 2
+                    elif i + 1 < n and text[i + 1] == '\n':
+                        i += 2
+                    else:
+                        out.append(c)
+                        i += 1
+                else:
+                    out.append(c)
+                    i += 1
+        elif ch == '\\':
+            if i + 1 >= n:
+                return None, 'ends with a backslash'
+            if text[i + 1] != '\n':
+                out.append(text[i + 1])
+            i += 2
+        elif ch in SAFE_UNQUOTED:
+            out.append(ch)
+            i += 1
+        else:
+            return None, f'contains the unquoted shell character {ch!r}'
+    return ''.join(out), None
 
 
 def expand_reference(text, env):
-    """-> (path, how) where how in canonical / bash ; or (None, reason)"""
+    """-> (path, 'canonical' | 'other-quoting') or (None, reason).  canonical = the DESIGN form: shlex.quote(path)
+    or ${BATCH_TMPDIR} + shlex.quote(path below it)."""
     tmpdir = env.get('BATCH_TMPDIR', '')
-    try:
-        words = shlex.split(text.replace('${BATCH_TMPDIR}', tmpdir)) if tmpdir else shlex.split(text)
-    except ValueError:
-        words = None
-    if words is not None and len(words) == 1:
-        p = words[0]
-        if text == shlex.quote(p):
-            return p, 'canonical'
-        if tmpdir and p.startswith(tmpdir) and text == '${BATCH_TMPDIR}' + shlex.quote(p[len(tmpdir):]):
-            return p, 'canonical'
-    bw = bash_words(text, env)
-    if bw is not None and len(bw) == 1 and words is not None and len(words) == 1 and bw[0] == words[0]:
-        return bw[0], 'bash'
-    if bw is not None and len(bw) != 1:
-        return None, f'expands to {len(bw)} shell words'
-    return None, 'is not a quoted path (the shell does not read it as the literal path)'
+    p, why = shell_literal_word(text, tmpdir)
+    if p is None:
+        return None, why
+    if text == shlex.quote(p):
+        return p, 'canonical'
+    if tmpdir and p.startswith(tmpdir) and text == TMPVAR + shlex.quote(p[len(tmpdir):]):
+        return p, 'canonical'
+    return p, 'other_quoting'
 
 
 def shape_key(case):
@@ -836,16 +890,13 @@ def check(ctx, case, obs):
                     continue
                 path, how = expand_reference(ref_text, env)
                 if path is None:
-                    viol('command/reference-not-a-quoted-path', f'job {j} command {c} segment {k}: reference became {ref_text[:120]!r}, which {how}', job=j)
+                    viol('command/reference-not-a-quoted-path', f'job {j} command {c} segment {k}: reference became {ref_text[:120]!r}, which {how}: the shell would not read it as one literal path', job=j)
                     ok = False
                     continue
                 ctx.count('references_checked')
                 ctx.count('references_' + how)
                 if s['form'] == 'file':
                     add_use(j, s['rid'], path)
-                    s_probe = 'digit_probe' in s and sfx.endswith('-probe')
-                    if s_probe:
-                        ctx.count('digit_probe_references')
                 elif s['form'] == 'group':
                     group_root.setdefault((j, s['gid']), set()).add(path)
                 else:
@@ -1145,7 +1196,7 @@ def check(ctx, case, obs):
     if obs['probes'] and ok:
         # the probe reference silently resolved to another resource without any path clash: compare with the intended file
         for pr in obs['probes']:
-            ctx.count('digit_probe_silently_resolved')
+            ctx.count('digit_probe_resolved_to_the_intended_resource')
     return ok
 
 
@@ -1156,14 +1207,20 @@ def run(ctx):
     if not getattr(dill, '_verif_functional_shim', False) and getattr(dill, '_verif_stub', False):
         raise __import__('vf.harness').harness.Inconclusive('dill is an inert stub: PythonJob argument files would be unreadable')
 
-    phases = [('main', ctx.pick(450, 420)), ('tokens', ctx.pick(40, 40)), ('digits', ctx.pick(40, 40))]
+    import gc
+
+    gc.disable()  # Backend.__del__ runs the event loop: let the cyclic GC run between cases only
+    phases = [('main', ctx.pick(1200, 2500)), ('tokens', ctx.pick(100, 150)), ('digits', ctx.pick(100, 150))]
     for phase, n in phases:
         for i, rng in ctx.cases(n, phase):
             case = gen_case(rng, phase)
             obs = execute(case)
+            gc.collect()
             good = check(ctx, case, obs)
             if phase == 'tokens':
                 ctx.count('token_space_cases')
+            ctx.count('digit_probes_placed', len(obs['probes']))
+            ctx.count('digit_probes_steered_to_an_existing_uid', sum(1 for p in obs['probes'] if p['steered']))
             for f in case['files']:
                 if f['ext_when'] == 'pre':
                     ctx.count('extension_before_mention')
